@@ -456,7 +456,7 @@ def wide_sweep(t, rng):
     """Wide interface: mocks at low / middle / around 99 / last positions, every method called."""
     srt = sorted_methods(t['decl'])
     n = len(srt)
-    pos = sorted({0, 1, n // 2, 97, 98, 99, 100, n - 2, n - 1, rng.below(n), rng.below(n)})
+    pos = sorted(p_ for p_ in {0, 1, n // 2, 97, 98, 99, 100, n - 2, n - 1, rng.below(n), rng.below(n)} if p_ < n)
     line = f'c07.hist {T_tok(t)} V:{t["id"]}:0 V:{t["id"]}:6 mx ca:1'
     k = 0
     for p_ in pos:
